@@ -1265,7 +1265,15 @@ def check_prng(ck_ob, mod, label, generate=True):
     V, C, CNT, LIM = fld["V"]["offset"], fld["C"]["offset"], fld["reseed_counter"]["offset"], fld["reseed_limit"]["offset"]
     if (fld["V"]["size"], fld["C"]["size"], V) != (32, 32, 0):
         raise Broken("PRNG private state layout changed")
-    icells = lambda ob, off, n: ob == ST and (off, n) in ((CNT, 4), (LIM, 4))
+    if generate:
+        # the reseed counter is the 32-bit quantity added into V (big-endian, 4 bytes) and compared with the limit; feed() and generate
+        # increment it without an upper bound of their own, so a narrower field wraps after a long enough history
+        wf = mod.fn("tinyjambu_prng_generate")
+        ck_ob(fld["reseed_counter"]["size"] == 4 and fld["reseed_limit"]["size"] == 4, "SEQ", wf.name, "counter-width[%s]" % label,
+              "reseed counter and reseed limit are 32-bit fields: the counter term of the state advance and the position of automatic reseeds are those of a 32-bit count of calls",
+              "reseed counter / limit are %d / %d bytes wide instead of 4: the count of calls wraps (feeds included) and with it the counter term and where automatic reseeds fall"
+              % (fld["reseed_counter"]["size"], fld["reseed_limit"]["size"]), relpath("%s:%d" % (wf.file, wf.line)))
+    icells = lambda ob, off, n: ob == ST and (off, n) in ((CNT, fld["reseed_counter"]["size"]), (LIM, fld["reseed_limit"]["size"]))
     CP = repr(Lf({ST: 1, 1: C}))
     VP = repr(Lf.s(ST))
     n = 0
